@@ -13,7 +13,7 @@ RULE = ("NetSpecs from the full lattice (finite-server nodes with fixed c or sch
         "completions on one server id or an overtime completion; distinct by spec digest.")
 ASSUMPTIONS = ["live service = ind.server is a Server present in node.servers with server.cust is ind",
                "utilisation clause only for single simulate_until_max_time calls without any pre-emption (property text)"]
-WALL = {"quick": 50, "thorough": 540}
+WALL = {"quick": 150, "thorough": 540}
 
 
 def nontrivial(a, spec, res):
@@ -32,4 +32,4 @@ def subchecks(tier):
     prof = common.full_profile(horizon=(6.0, 18.0), plans=("max_time", "max_time", "max_time", "max_customers"), resumptions=(1, 2))
     prof.weights.update({"ps": 0.0, "inf": 0.1, "slotted": 0.05, "schedule": 0.45, "capacity": 0.5, "server_priority": 0.3})
     return [system_subcheck("lattice", prof, lambda spec: [Exclusivity(spec)], nontrivial, classes=classes,
-                            n={"quick": 3200, "thorough": 50000}, rule="finite-server lattice; attachment monitor + utilisation audit")]
+                            n={"quick": 9600, "thorough": 50000}, rule="finite-server lattice; attachment monitor + utilisation audit")]
